@@ -1110,3 +1110,214 @@ Section SignedRoots.
       + rewrite Z.sgn_pos by lia. lia.
   Qed.
 End SignedRoots.
+
+(* ================= parity, Signed, forwarders ================= *)
+
+Lemma B_even w : 0 < w -> B w = 2 * (B w / 2).
+Proof.
+  intros Hw. unfold B. replace w with (1 + (w - 1)) by lia. rewrite Z.pow_add_r by lia. change (2 ^ 1) with 2.
+  rewrite (Z.mul_comm 2), Z.div_mul by lia. lia.
+Qed.
+
+Theorem TU_parity_ok w n a : 0 < w -> (0 < n)%nat -> wf w n a ->
+  TU_is_even a = Z.even (uval w a) /\ TU_is_odd a = Z.odd (uval w a).
+Proof.
+  intros Hw Hn Ha. destruct n as [|n']; [lia|]. destruct (wf_inv_S _ _ _ Ha) as (d & r & -> & Hd & Hr).
+  unfold TU_is_even, TU_is_odd, u_and. cbn [hd uval].
+  assert (Hl : Z.land d 1 = d mod 2).
+  { change 1 with (Z.ones 1). rewrite Z.land_ones by lia. reflexivity. }
+  rewrite Hl.
+  rewrite (B_even w Hw). replace (d + 2 * (B w / 2) * uval w r) with (d + 2 * (B w / 2 * uval w r)) by ring.
+  rewrite Z.even_add_mul_2, Z.odd_add_mul_2.
+  rewrite (Zmod_even d), <- (Z.negb_even d). destruct (Z.even d); split; reflexivity.
+Qed.
+
+Theorem TI_parity_ok w n a : 0 < w -> (0 < n)%nat -> wf w n a ->
+  TI_is_even a = Z.even (sval w a) /\ TI_is_odd a = Z.odd (sval w a).
+Proof.
+  intros Hw Hn Ha. unfold TI_is_even, TI_is_odd.
+  destruct (TU_parity_ok w n a Hw Hn Ha) as [He Ho]. rewrite He, Ho.
+  pose proof (Mod_even w n Hw Hn) as HM.
+  unfold sval, to_signed. rewrite (wf_length _ _ _ Ha).
+  destruct (uval w a <? Mod w n / 2); [split; reflexivity|].
+  rewrite HM. replace (uval w a - 2 * (Mod w n / 2)) with (uval w a + 2 * (- (Mod w n / 2))) by ring.
+  rewrite Z.even_add_mul_2, Z.odd_add_mul_2. split; reflexivity.
+Qed.
+
+Lemma uval_UMAX w n : 0 <= w -> uval w (UMAX w n) = Mod w n - 1.
+Proof.
+  intros Hw. unfold UMAX, u_max. induction n as [|n IH]; cbn [repeat uval].
+  - rewrite Mod_0. reflexivity.
+  - rewrite IH, Mod_S by lia. ring.
+Qed.
+Lemma wf_UMAX w n : 0 <= w -> wf w n (UMAX w n).
+Proof.
+  intros Hw. split; [apply repeat_length|]. apply Forall_forall. intros x Hx.
+  apply repeat_spec in Hx. subst x. unfold digit_ok, u_max. pose proof (B_pos w Hw). lia.
+Qed.
+
+Section SignedTrait.
+  Context (NS : is_negative_spec) (IC : icmp_spec) (SUB : I_sub_spec).
+
+  Theorem TI_signum_ok w n a : 0 < w -> (0 < n)%nat -> wf w n a ->
+    wf w n (TI_signum w a) /\ sval w (TI_signum w a) = Z.sgn (sval w a).
+  Proof.
+    intros Hw Hn Ha. unfold TI_signum, signum. rewrite (NS w n a Hw Hn Ha), (wf_length _ _ _ Ha).
+    pose proof (Mod_half_pos w n Hw Hn) as HH. pose proof (Mod_even w n Hw Hn) as HM.
+    pose proof (sval_range w n a Hw Hn Ha) as Hr.
+    destruct (Z.ltb_spec (sval w a) 0) as [Hneg|Hpos].
+    - split; [apply wf_UMAX; lia|]. rewrite Z.sgn_neg by lia. unfold NEG_ONE, sval, to_signed. rewrite (wf_length _ _ _ (wf_UMAX w n ltac:(lia))).
+      rewrite uval_UMAX by lia. destruct (Z.ltb_spec (Mod w n - 1) (Mod w n / 2)); lia.
+    - rewrite (is_zero_spec w n a ltac:(lia) Ha).
+      destruct (Z.eqb_spec (uval w a) 0) as [E|E].
+      + split; [apply wf_ZERO; lia|]. rewrite (proj2 (sval_zero_iff w n a Hw Hn Ha) E). cbn [Z.sgn].
+        rewrite (sval_of_small w n); [apply uval_ZERO|exact Hw|exact Hn|apply wf_ZERO; lia|rewrite uval_ZERO; lia].
+      + assert (sval w a <> 0) by (rewrite (sval_zero_iff w n a Hw Hn Ha); exact E).
+        split; [apply wf_ONE; exact Hw|]. rewrite Z.sgn_pos by lia. apply sval_ONE; auto; lia.
+  Qed.
+
+  Theorem TI_abs_sub_ok dbg w n a b : 0 < w -> (0 < n)%nat -> wf w n a -> wf w n b ->
+    sval w a - sval w b < Mod w n / 2 ->
+    exists r, TI_abs_sub dbg w a b = Ret r /\ wf w n r /\ sval w r = Z.max 0 (sval w a - sval w b).
+  Proof.
+    intros Hw Hn Ha Hb Hfit. unfold TI_abs_sub. rewrite (IC w n a b Hw Hn Ha Hb), (wf_length _ _ _ Ha).
+    pose proof (Mod_half_pos w n Hw Hn) as HH.
+    destruct (Z.compare_spec (sval w a) (sval w b)) as [E|E|E]; cbn [cmp_le].
+    - exists (ZERO n). split; [reflexivity|]. split; [apply wf_ZERO; lia|].
+      rewrite (sval_of_small w n); [rewrite uval_ZERO; lia|exact Hw|exact Hn|apply wf_ZERO; lia|rewrite uval_ZERO; lia].
+    - exists (ZERO n). split; [reflexivity|]. split; [apply wf_ZERO; lia|].
+      rewrite (sval_of_small w n); [rewrite uval_ZERO; lia|exact Hw|exact Hn|apply wf_ZERO; lia|rewrite uval_ZERO; lia].
+    - destruct (SUB dbg w n a b Hw Hn Ha Hb ltac:(lia)) as (r & Er & Wr & Vr).
+      exists r. split; [exact Er|]. split; [exact Wr|]. lia.
+  Qed.
+End SignedTrait.
+
+(* the forwarding impls are the inherent models *)
+Theorem forwarders_U :
+  TU_checked_add = U_checked_add /\ TU_checked_sub = U_checked_sub /\ TU_checked_mul = U_checked_mul /\
+  TU_checked_div = U_checked_div /\ TU_checked_rem = U_checked_rem /\ TU_checked_neg = U_checked_neg /\
+  TU_checked_shl = U_checked_shl /\ TU_checked_shr = U_checked_shr /\
+  TU_saturating_add = U_saturating_add /\ TU_saturating_sub = U_saturating_sub /\ TU_saturating_mul = U_saturating_mul /\
+  TU_wrapping_add = U_wrapping_add /\ TU_wrapping_sub = U_wrapping_sub /\ TU_wrapping_mul = U_wrapping_mul /\
+  TU_wrapping_neg = U_wrapping_neg /\ TU_wrapping_shl = U_wrapping_shl /\ TU_wrapping_shr = U_wrapping_shr /\
+  TU_overflowing_add = U_overflowing_add /\ TU_overflowing_sub = U_overflowing_sub /\
+  TU_div_euclid = U_div_euclid /\ TU_rem_euclid = U_rem_euclid /\
+  TU_checked_div_euclid = U_checked_div_euclid /\ TU_checked_rem_euclid = U_checked_rem_euclid /\
+  TU_pow = U_pow /\
+  (forall dbg w a b c, TU_mul_add dbg w a b c = obind (U_mul dbg w a b) (fun p => U_add dbg w p c)) /\
+  (forall n, TU_min_value n = ZERO n) /\ (forall w n, TU_max_value w n = UMAX w n) /\
+  TU_div_floor = U_div /\ TU_mod_floor = U_rem /\ TU_div_rem = U_div_rem /\
+  (forall dbg w a z, TU_signed_shl dbg w a z = U_shl dbg w a z) /\
+  (forall dbg w a z, TU_signed_shr dbg w a z = I_shr dbg w a z) /\
+  (forall dbg w a z, TU_unsigned_shl dbg w a z = U_shl dbg w a z) /\
+  (forall dbg w a z, TU_unsigned_shr dbg w a z = U_shr dbg w a z).
+Proof. repeat split. Qed.
+
+Theorem forwarders_I :
+  TI_checked_add = I_checked_add /\ TI_checked_sub = I_checked_sub /\ TI_checked_mul = I_checked_mul /\
+  TI_checked_div = I_checked_div /\ TI_checked_rem = I_checked_rem /\ TI_checked_neg = I_checked_neg /\
+  TI_checked_shl = I_checked_shl /\ TI_checked_shr = I_checked_shr /\
+  TI_saturating_add = I_saturating_add /\ TI_saturating_sub = I_saturating_sub /\ TI_saturating_mul = I_saturating_mul /\
+  TI_wrapping_add = I_wrapping_add /\ TI_wrapping_sub = I_wrapping_sub /\ TI_wrapping_mul = I_wrapping_mul /\
+  TI_wrapping_neg = I_wrapping_neg /\ TI_wrapping_shl = I_wrapping_shl /\ TI_wrapping_shr = I_wrapping_shr /\
+  TI_overflowing_add = I_overflowing_add /\ TI_overflowing_sub = I_overflowing_sub /\
+  TI_div_euclid = I_div_euclid /\ TI_rem_euclid = I_rem_euclid /\
+  TI_checked_div_euclid = I_checked_div_euclid /\ TI_checked_rem_euclid = I_checked_rem_euclid /\
+  TI_pow = I_pow /\
+  (forall dbg w a b c, TI_mul_add dbg w a b c = obind (I_mul dbg w a b) (fun p => I_add dbg w p c)) /\
+  (forall w n, TI_min_value w n = IMIN w n) /\ (forall w n, TI_max_value w n = IMAX w n) /\
+  TI_abs = I_abs /\ TI_signum = signum /\ TI_is_positive = is_positive /\ TI_is_negative = is_negative /\
+  (forall dbg w a z, TI_signed_shl dbg w a z = I_shl dbg w a z) /\
+  (forall dbg w a z, TI_signed_shr dbg w a z = I_shr dbg w a z) /\
+  (forall dbg w a z, TI_unsigned_shl dbg w a z = I_shl dbg w a z) /\
+  (forall dbg w a z, TI_unsigned_shr dbg w a z = U_shr dbg w a z).
+Proof. repeat split. Qed.
+
+Theorem forwarders_common :
+  T_zero = ZERO /\ T_one = ONE /\ T_is_zero = is_zero /\ T_is_one = is_one /\
+  T_count_ones = count_ones /\ T_count_zeros = count_zeros /\ T_leading_zeros = leading_zeros /\
+  T_trailing_zeros = trailing_zeros /\ T_leading_ones = leading_ones /\ T_trailing_ones = trailing_ones /\
+  T_rotate_left = rotate_left /\ T_rotate_right = rotate_right /\ T_swap_bytes = swap_bytes /\
+  T_reverse_bits = reverse_bits /\ T_from_be = swap_bytes /\ T_to_be = swap_bytes /\
+  (forall w a, T_from_le w a = a) /\ (forall w a, T_to_le w a = a).
+Proof. repeat split. Qed.
+
+(* ================= the root theorems in contract form ================= *)
+
+Theorem TU_sqrt_contract (D : deps_roots) dbg w n a : 0 < w -> u128_width_ok w -> (0 < n)%nat -> wf w n a ->
+  exists r, TU_sqrt dbg w a = Some (Ret r) /\ wf w n r /\ uval w r ^ 2 <= uval w a < (uval w r + 1) ^ 2.
+Proof.
+  intros Hw Hok Hn Ha. destruct (TU_sqrt_ok D dbg w n a Hw Hok Hn Ha) as (r & Er & Wr & Vr).
+  pose proof (uval_bounds w n a ltac:(lia) Ha).
+  exists r. split; [exact Er|]. split; [exact Wr|]. rewrite Vr. apply zroot_spec; lia.
+Qed.
+
+Theorem TU_cbrt_contract (D : deps_roots) dbg w n a : 0 < w -> 3 < B w -> u128_width_ok w -> (0 < n)%nat -> wf w n a ->
+  exists r, TU_cbrt dbg w a = Some (Ret r) /\ wf w n r /\ uval w r ^ 3 <= uval w a < (uval w r + 1) ^ 3.
+Proof.
+  intros Hw HB Hok Hn Ha. destruct (TU_cbrt_ok D dbg w n a Hw HB Hok Hn Ha) as (r & Er & Wr & Vr).
+  pose proof (uval_bounds w n a ltac:(lia) Ha).
+  exists r. split; [exact Er|]. split; [exact Wr|]. rewrite Vr. apply zroot_spec; lia.
+Qed.
+
+Theorem TU_nth_root_contract (D : deps_roots) dbg w n a k : 0 < w -> 3 < B w -> u128_width_ok w -> (0 < n)%nat ->
+  wf w n a -> 0 <= k < 2 ^ 32 ->
+  if k =? 0 then TU_nth_root dbg w a k = Some Panic
+  else exists r, TU_nth_root dbg w a k = Some (Ret r) /\ wf w n r /\
+                 uval w r ^ k <= uval w a < (uval w r + 1) ^ k.
+Proof.
+  intros Hw HB Hok Hn Ha Hk. destruct (Z.eqb_spec k 0) as [->|Hk0]; [reflexivity|].
+  destruct (TU_nth_root_ok D dbg w n a k Hw HB Hok Hn Ha ltac:(lia)) as (r & Er & Wr & Vr).
+  pose proof (uval_bounds w n a ltac:(lia) Ha).
+  exists r. split; [exact Er|]. split; [exact Wr|]. rewrite Vr. apply zroot_spec; lia.
+Qed.
+
+Lemma signed_root_contract k SA R : 1 <= k -> R = Z.sgn SA * zroot k (Z.abs SA) ->
+  Z.abs R ^ k <= Z.abs SA < (Z.abs R + 1) ^ k /\ (R = 0 \/ Z.sgn R = Z.sgn SA).
+Proof.
+  intros Hk ->. destruct (zroot_spec k (Z.abs SA) Hk ltac:(lia)) as (H0 & H1 & H2).
+  set (z := zroot k (Z.abs SA)) in *.
+  destruct (Z.lt_trichotomy SA 0) as [Hs|[Hs|Hs]].
+  - rewrite Z.sgn_neg by lia. replace (-1 * z) with (- z) by lia. rewrite Z.abs_opp, (Z.abs_eq z) by lia.
+    split; [split; assumption|]. destruct (Z.eq_dec z 0) as [E|E]; [left; lia|right]. rewrite Z.sgn_neg; lia.
+  - subst SA. cbn [Z.sgn Z.abs] in *. rewrite Z.mul_0_l. cbn [Z.abs].
+    assert (z = 0) by (unfold z; reflexivity). rewrite H in *. split; [split; assumption|left; reflexivity].
+  - rewrite Z.sgn_pos by lia. rewrite Z.mul_1_l, (Z.abs_eq z) by lia.
+    split; [split; assumption|]. destruct (Z.eq_dec z 0) as [E|E]; [left; lia|right]. rewrite Z.sgn_pos; lia.
+Qed.
+
+Theorem TI_nth_root_contract (D : deps_roots) (DS : deps_signed) dbg w n a k :
+  0 < w -> 3 < B w -> u128_width_ok w -> (0 < n)%nat -> wf w n a -> 0 <= k < 2 ^ 32 ->
+  if (k =? 0) || ((sval w a <? 0) && Z.even k) then TI_nth_root dbg w a k = Some Panic
+  else exists r, TI_nth_root dbg w a k = Some (Ret r) /\ wf w n r /\
+         Z.abs (sval w r) ^ k <= Z.abs (sval w a) < (Z.abs (sval w r) + 1) ^ k /\
+         (sval w r = 0 \/ Z.sgn (sval w r) = Z.sgn (sval w a)).
+Proof.
+  intros Hw HB Hok Hn Ha Hk. pose proof (TI_nth_root_ok D DS dbg w n a k Hw HB Hok Hn Ha Hk) as H.
+  destruct ((k =? 0) || ((sval w a <? 0) && Z.even k)) eqn:Ec; [exact H|].
+  destruct H as (r & Er & Wr & Vr). exists r. split; [exact Er|]. split; [exact Wr|].
+  apply signed_root_contract; [|exact Vr].
+  apply orb_false_iff in Ec. destruct Ec as [Ek _]. apply Z.eqb_neq in Ek. lia.
+Qed.
+
+Theorem TI_cbrt_contract (D : deps_roots) (DS : deps_signed) dbg w n a :
+  0 < w -> 3 < B w -> u128_width_ok w -> (0 < n)%nat -> wf w n a ->
+  exists r, TI_cbrt dbg w a = Some (Ret r) /\ wf w n r /\
+         Z.abs (sval w r) ^ 3 <= Z.abs (sval w a) < (Z.abs (sval w r) + 1) ^ 3 /\
+         (sval w r = 0 \/ Z.sgn (sval w r) = Z.sgn (sval w a)).
+Proof.
+  intros Hw HB Hok Hn Ha. destruct (TI_cbrt_ok D DS dbg w n a Hw HB Hok Hn Ha) as (r & Er & Wr & Vr).
+  exists r. split; [exact Er|]. split; [exact Wr|]. apply signed_root_contract; [lia|exact Vr].
+Qed.
+
+Theorem TI_sqrt_contract (D : deps_roots) (DS : deps_signed) dbg w n a :
+  0 < w -> u128_width_ok w -> (0 < n)%nat -> wf w n a ->
+  if sval w a <? 0 then TI_sqrt dbg w a = Some Panic
+  else exists r, TI_sqrt dbg w a = Some (Ret r) /\ wf w n r /\ 0 <= sval w r /\
+                 sval w r ^ 2 <= sval w a < (sval w r + 1) ^ 2.
+Proof.
+  intros Hw Hok Hn Ha. pose proof (TI_sqrt_ok D DS dbg w n a Hw Hok Hn Ha) as H.
+  destruct (Z.ltb_spec (sval w a) 0) as [Hneg|Hpos]; [exact H|].
+  destruct H as (r & Er & Wr & Vr). exists r. split; [exact Er|]. split; [exact Wr|]. rewrite Vr.
+  apply zroot_spec; lia.
+Qed.
